@@ -239,6 +239,8 @@ pub enum IdentEv {
 pub const INJ_NONE: u8 = 0;
 pub const INJ_PANIC_RUN: u8 = 1;
 pub const INJ_PANIC_FETCH: u8 = 2;
+/// the system's own `setup` hook panics (after it was counted)
+pub const INJ_PANIC_SETUP: u8 = 3;
 
 pub struct Ctx {
     pub n: usize,
